@@ -3,21 +3,24 @@ C17 — a running acquisition is free of data races: the skeleton's contracts (`
 the harness lines and `runLine`.  Core Lean only.
 
 Encoding shared with harness/c17_canon.go:
-  thread = kind*M + b*100 + i   kinds 0 R (control client) 1 L (core loop) 2 P (producer / reader) 3 S (status thread)
+  thread = (b*n + i)*16 + kind  kinds 0 R (control client) 1 L (core loop) 2 P (producer / reader) 3 S (status thread)
            4 A (block assembly of block b) 5 AW (assembly worker b,i) 6 W1a 7 W1b (first-wave worker b,i, spawned
            before / after the core loop took its first request) 8 W2a 9 W2b (second wave) 10 AR (archive writer j)
-  var    = class*M + idx        1 nfn 2 etq 3 blk 4 seg 5 arch 6 afill 7 pst 8 ptrig 9 bcon 10 trs 11 wsa 12 wsc 13 vip 14 bst
-  object = class*M + idx        1 nb 2 bufc 3 qreq 4 qres 5 cm 6 cmpl 7 fl 8 wsm 9 cfg 10 wga 11 wgp 12 rund 13 abort
+  var    = idx*16 + class        1 nfn 2 etq 3 blk 4 seg 5 arch 6 afill 7 pst 8 ptrig 9 bcon 10 trs 11 wsa 12 wsc 13 vip 14 bst
+  object = idx*16 + class        1 nb 2 bufc 3 qreq 4 qres 5 cm 6 cmpl 7 fl 8 wsm 9 cfg 10 wga 11 wgp 12 rund 13 abort
   token  = var*2 + share        (ptrig, bcon, wsa have two shares: a read needs one, a write both)
 -/
 import DastardV.Proto
 import DastardV.Model.C17Sys
 namespace DastardV.C17
 
-def M : Nat := 1000000
+/-- ids are `idx * 16 + class` (threads: `idx = b * n + i`), injective for every number of blocks and channels -/
+def enc (cls idx : Nat) : Nat := idx * 16 + cls
+def clsOf (x : Nat) : Nat := x % 16
+def idxOf (x : Nat) : Nat := x / 16
 
-def mkVar (cls idx : Nat) : Var := cls * M + idx
-def tk (cls idx share : Nat) : Tok := (cls * M + idx) * 2 + share
+def mkVar (cls idx : Nat) : Var := enc cls idx
+def tk (cls idx share : Nat) : Tok := enc cls idx * 2 + share
 
 /-- classes with two shares -/
 def twoShares (cls : Nat) : Bool := cls == 8 || cls == 9 || cls == 11
@@ -36,20 +39,21 @@ def Par.merged (p : Par) : Bool := p.src != 0
 
 def rng (n : Nat) : List Nat := List.range n
 
-/-- block + its segments -/
+/-- block `b` + its segments (`b` = 0 for the merged block of Abaco / Lancero) -/
 def blockToks (p : Par) (b : Nat) : List Tok :=
-  if p.merged then tk 3 0 0 :: (rng p.n).map (fun i => tk 4 i 0)
-  else tk 3 b 0 :: (rng p.n).map (fun i => tk 4 (b * 100 + i) 0)
+  tk 3 b 0 :: (rng p.n).map (fun i => tk 4 (b * p.n + i) 0)
 
 def procToks (i : Nat) (both : Bool) : List Tok :=
   if both then [tk 7 i 0, tk 8 i 0, tk 8 i 1] else [tk 7 i 0, tk 8 i 0]
 
 def nfnTok : Tok := tk 1 0 0
 
+/-- channel index of a worker thread -/
+def chanOf (p : Par) (u : Tid) : Nat := if p.n == 0 then 0 else idxOf u % p.n
+
 def spawnPayOf (p : Par) (u : Tid) : List Tok :=
-  let kind := u / M
-  let i := u % 100
-  match kind with
+  let i := chanOf p u
+  match clsOf u with
   | 1 => -- the core loop
     (rng p.n).flatMap (fun i => procToks i false) ++ [tk 9 0 0, tk 14 0 0, tk 5 0 0, tk 11 0 0, tk 12 0 0]
       ++ (rng p.narch).map (fun j => tk 6 j 0) ++ (rng p.ntrs).map (fun m => tk 10 m 0)
@@ -64,12 +68,29 @@ def spawnPayOf (p : Par) (u : Tid) : List Tok :=
   | 9 => procToks i true
   | _ => []
 
+/-- the tokens that exist in a run with parameters `p` (everything else is parked in a mutex of its own, class 15,
+    that nothing ever locks: an access to a variable outside the run's universe is never permitted) -/
+def used (p : Par) (k : Tok) : Bool :=
+  let x := k / 2
+  let sh := k % 2
+  let cls := clsOf x
+  let idx := idxOf x
+  if cls == 1 || cls == 2 || cls == 5 || cls == 12 || cls == 13 || cls == 14 then idx == 0 && sh == 0
+  else if cls == 9 || cls == 11 then idx == 0
+  else if cls == 7 then decide (idx < p.n) && sh == 0
+  else if cls == 8 then decide (idx < p.n)
+  else if cls == 6 then decide (idx < p.narch) && sh == 0
+  else if cls == 10 then decide (idx < p.ntrs) && sh == 0
+  else if cls == 3 then sh == 0 && (if p.merged then idx == 0 else decide (1 ≤ idx ∧ idx ≤ p.nblk))
+  else if cls == 4 then sh == 0 && (if p.merged then decide (idx < p.n) else decide (p.n ≤ idx ∧ idx < (p.nblk + 1) * p.n))
+  else false
+
 def mkSpec (p : Par) : Spec where
-  toks := fun x => if twoShares (x / M) then [x * 2, x * 2 + 1] else [x * 2]
+  toks := fun x => if twoShares (clsOf x) then [x * 2, x * 2 + 1] else [x * 2]
   varOf := fun k => k / 2
   chanPay := fun c =>
-    let cls := c / M
-    let idx := c % M
+    let cls := clsOf c
+    let idx := idxOf c
     if cls == 1 then
       (if p.merged then (if idx == 0 then blockToks p 0 ++ (if p.src == 2 then [nfnTok] else []) else [])
        else (if idx == 0 then [] else blockToks p idx))
@@ -79,24 +100,24 @@ def mkSpec (p : Par) : Spec where
     else []
   closePay := fun _ => []
   mtxPay := fun m =>
-    if m == 7 * M then (if p.src == 1 then [nfnTok, tk 2 0 0] else [])
-    else if m == 8 * M then [tk 11 0 1]
-    else if m == 9 * M then [tk 13 0 0]
+    if clsOf m == 15 then (if used p (idxOf m) then [] else [idxOf m])
+    else if m == enc 7 0 then (if p.src == 1 then [nfnTok, tk 2 0 0] else [])
+    else if m == enc 8 0 then [tk 11 0 1]
+    else if m == enc 9 0 then [tk 13 0 0]
     else []
   donePay := fun w t =>
-    let cls := w / M
-    let kind := t / M
+    let cls := clsOf w
+    let kind := clsOf t
     if cls == 10 then (if kind == 5 then spawnPayOf p t else [])
     else if cls == 11 then (if 6 ≤ kind ∧ kind ≤ 9 then spawnPayOf p t else [])
-    else if cls == 12 then (if t == 1 * M then [tk 11 0 0, tk 12 0 0] else [])
+    else if cls == 12 then (if t == enc 1 0 then [tk 11 0 0, tk 12 0 0] else [])
     else []
   spawnPay := spawnPayOf p
   init := fun k =>
-    let x := k / 2
-    let cls := x / M
-    if cls == 13 then .mtx (9 * M)
-    else if cls == 11 && k % 2 == 1 then .mtx (8 * M)
-    else if p.src == 1 && (cls == 1 || cls == 2) then .mtx (7 * M)
+    if !used p k then .mtx (enc 15 k)
+    else if k == tk 13 0 0 then .mtx (enc 9 0)
+    else if k == tk 11 0 1 then .mtx (enc 8 0)
+    else if p.src == 1 && (k == nfnTok || k == tk 2 0 0) then .mtx (enc 7 0)
     else .thr 0
 
 /-! ### parsing -/
@@ -156,7 +177,7 @@ def dense (tr : Trace) : Trace := denseFrom [] tr
     (3) accepted by the ownership contracts of the skeleton -/
 def judgeTrace (p : Par) (tr : Trace) : Verdict :=
   match firstRace (dense tr) with
-  | some (i, x) => .viol s!"C17:race-{className (x / M)} unordered access at event {i} of the logged trace: {(tr[i]?).map showEv}"
+  | some (i, x) => .viol s!"C17:race-{className (clsOf x)} unordered access at event {i} of the logged trace: {(tr[i]?).map showEv}"
   | none =>
     match feasFailFrom FSt.init tr 0 with
     | some i => .diff s!"trace-infeasible at event {i}: {(tr[i]?).map showEv}"
@@ -166,12 +187,12 @@ def judgeTrace (p : Par) (tr : Trace) : Verdict :=
       | none =>
         let has (f : Tid × Ev → Bool) (tag : String) : List String := if tr.any f then [tag] else []
         .ok (["traced", "src" ++ toString p.src]
-          ++ has (fun te => te.1 / M == 8 || te.1 / M == 9) "secondWave"
-          ++ has (fun te => te.1 / M == 10) "archived"
-          ++ has (fun te => te.2 == .recv (5 * M) || (match te.2 with | .recv c => c / M == 5 | _ => false)) "trigRate"
-          ++ has (fun te => match te.2 with | .recv c => c / M == 3 | _ => false) "requests"
-          ++ has (fun te => match te.2 with | .wr x => x / M == 11 | _ => false) "writing"
-          ++ has (fun te => match te.2 with | .wr x => x / M == 13 | _ => false) "stateSaved")
+          ++ has (fun te => clsOf te.1 == 8 || clsOf te.1 == 9) "secondWave"
+          ++ has (fun te => clsOf te.1 == 10) "archived"
+          ++ has (fun te => (match te.2 with | .recv c => clsOf c == 5 | _ => false)) "trigRate"
+          ++ has (fun te => match te.2 with | .recv c => clsOf c == 3 | _ => false) "requests"
+          ++ has (fun te => match te.2 with | .wr x => clsOf x == 11 | _ => false) "writing"
+          ++ has (fun te => match te.2 with | .wr x => clsOf x == 13 | _ => false) "stateSaved")
 
 def pLine : P Verdict := do
   P.kw "kind"
